@@ -117,8 +117,8 @@ CLAIMS = {
         technique='contract-based deductive verification (Verus) of mechanically extracted Rust functions',
         ref='DESIGN 6 C17'),
     'C19': dict(
-        text='Deductive proof (Verus) of the real text of the conversion kernels of qplib/convert.rs: to_quadratic (one COO entry per listed lower-triangle entry, each exactly once in any HashMap order, off-diagonal v, DIAGONAL v/2, so that the entries sum to 1/2 x\'Qx), wrap_function (value = quadratic entries + linear terms + constant for every assignment), to_linear (one term per listed entry, each exactly once in any HashMap order, constant 0), convert_dvars (one variable per declared variable in file order: id = position, declared kind, the file\'s bounds, the file\'s name) and convert_sense.',
-        note=A1 + 'ONLY these kernels are PROVED. The section-by-section text reader, convert_objective default-b0 expansion, convert_constraints (two-sided split) and apply_infinity_threshold are covered only by the bounded stand-in (every problem-type code, 240 rendered QPLIB texts through the public loader). ASSUMED: Quadratic::is_zero. Defect D6 (diagonal not halved) found by this check and repaired in /repo.',
+        text='Deductive proof (Verus) of the real text of the conversion kernels of qplib/convert.rs: to_quadratic (one COO entry per listed lower-triangle entry, each exactly once in any HashMap order, off-diagonal v, DIAGONAL v/2, so that the entries sum to 1/2 x\'Qx), wrap_function (value = quadratic entries + linear terms + constant for every assignment), to_linear (one term per listed entry, each exactly once in any HashMap order, constant 0), convert_dvars (one variable per declared variable in file order: id = position, declared kind, the file\'s bounds, the file\'s name), convert_sense, and convert_objective (the function wrap_function builds from the COO form of Q0, the constant and the linear part - for a zero default b0 one term per listed entry, otherwise one term per variable in index order carrying the listed value or the default, with exactly the zero coefficients removed; observation: a listed index >= num_vars panics).',
+        note=A1 + 'ONLY these kernels are PROVED. The section-by-section text reader, convert_constraints (two-sided split) and apply_infinity_threshold are covered only by the bounded stand-in (every problem-type code, 240 rendered QPLIB texts through the public loader). ASSUMED: Quadratic::is_zero. Defect D6 (diagonal not halved) found by this check and repaired in /repo.',
         technique='contract-based deductive verification (Verus) of mechanically extracted Rust functions',
         ref='DESIGN 6 C19'),
 }
